@@ -86,7 +86,7 @@ func checkC10(c *Ctx) {
 	c.Rule("C10-R3", "no method returns with the mutex held, none acquires it twice")
 	c.Rule("C10-R5", "what GetContent hands out is never written again: combining runes are stored as a fresh copy and no function writes through a stored slice (readers hold the slice outside the lock)")
 	c.Expect("C10-R5", 2)
-	c.Rule("C10-R7", "the resize callback of the unix Tty implementations is shared with their signal goroutine: every load and store of the field lies between Lock and Unlock of the Tty's own mutex (the screen calls NotifyResize without holding the screen lock)")
+	c.Rule("C10-R7", "what the unix Tty implementations share with their signal goroutine — the resize callback and every field that goroutine stores — is loaded and stored only between Lock and Unlock of the Tty's own mutex (the screen calls NotifyResize and WindowSize without holding the screen lock)")
 	c.Expect("C10-R7", 4)
 	c.Rule("C10-R6", "concurrent Fini calls are safe: the shutdown body runs through sync.Once only and the quit channel has a single closer (a flag read under the lock and acted upon after releasing it lets two callers close the channel)")
 	c.Expect("C10-R6", 3)
